@@ -181,7 +181,7 @@ def run_case(case, ctx):
         for t in sub["parent_tables"]:
             getattr(g, t)
         drop = sorted({k % len(faces) for k in sub["drop"]})
-        keep = [k for k in range(len(faces)) if k not in drop]
+        keep = [k for k in range(len(faces)) if k not in drop] or [drop[0]]  # never the empty selection
         g = g.isel(n_face=keep)
         info = None
         # the subset as the grid itself reports it (that it holds exactly the chosen faces is C02's / C09's subject)
